@@ -46,7 +46,7 @@ type backend interface {
 	realChain(abstract string) string
 	start(k kernelT, mode string)
 	restart()
-	setChain(name string, rules []body)
+	setChain(name string, rules []body, force bool)
 	removeChain(name string)
 	setIns(chain string, rules []body)
 	setApp(chain string, rules []body)
@@ -251,8 +251,9 @@ func (d *drv) step(op map[string]any) {
 	case "set_chain":
 		rules := toBodies(op["rules"])
 		name := tracelog.Str(op["name"])
-		d.be.setChain(name, rules)
-		d.log.Emit("set_chain", map[string]any{"name": name, "rules": rules})
+		force, _ := op["force"].(bool)
+		d.be.setChain(name, rules, force)
+		d.log.Emit("set_chain", map[string]any{"name": name, "rules": rules, "force": force})
 	case "remove_chain":
 		name := tracelog.Str(op["name"])
 		d.be.removeChain(name)
@@ -280,8 +281,14 @@ func (d *drv) step(op map[string]any) {
 			names = append(names, c)
 		}
 		sort.Strings(names)
+		forced := map[string]bool{}
+		if fs, ok := op["force"].([]any); ok {
+			for _, f := range fs {
+				forced[tracelog.Str(f)] = true
+			}
+		}
 		for _, c := range names {
-			d.step(map[string]any{"op": "set_chain", "name": c, "rules": want[c]})
+			d.step(map[string]any{"op": "set_chain", "name": c, "rules": want[c], "force": forced[c]})
 		}
 		d.step(map[string]any{"op": "set_ins", "chain": "K1", "rules": op["ins"]})
 		d.step(map[string]any{"op": "set_app", "chain": "K1", "rules": op["app"]})
